@@ -11,15 +11,20 @@ import (
 
 //go:generate pigeon -o internal/parser/zparser.go acc.peg
 
+// Memoization (packrat parsing) keeps parse time linear. Without it every level
+// of parenthesis nesting multiplies the work, since the alternatives of a shift
+// expression each re-parse the same base expression.
+var memoize = parser.Memoize(true)
+
 // File parses filename.
 func File(filename string) (*ast.Chain, error) {
-	return cast(parser.ParseFile(filename))
+	return cast(parser.ParseFile(filename, memoize))
 }
 
 // Reader parses the data from r using filename as information in
 // error messages.
 func Reader(filename string, r io.Reader) (*ast.Chain, error) {
-	return cast(parser.ParseReader(filename, r))
+	return cast(parser.ParseReader(filename, r, memoize))
 }
 
 // String parses s.
